@@ -26,10 +26,11 @@ def build(sc: dict):
     }
     fl = sc["fl"]
     if sc["multi"]:
-        objs = np.stack([val, o2], axis=1)
+        # three objectives, the rank key uses a strict subset (0 and 2); the heavily weighted objective 1 must not matter
+        objs = np.stack([val, 10.0 * decoy, o2], axis=1)
         cons = None
-        cfg["objectives"] = {"weights": [1.0, 2.0], "realization_filters": [0, 0]}
-        cfg["realization_filters"] = [{"method": "cvar-objective", "options": {"sort": [0, 1], "percentile": p}}]
+        cfg["objectives"] = {"weights": [1.0, 5.0, 2.0], "realization_filters": [0, -1, 0]}
+        cfg["realization_filters"] = [{"method": "cvar-objective", "options": {"sort": [0, 2], "percentile": p}}]
         col = ("obj", 0)
     elif fl == "obj":
         objs = np.stack([decoy, val], axis=1)
